@@ -15,7 +15,7 @@ Extraction "model.ml"
   assign_view move_view fill_view swap_views assign_vals x_sizes_eq footprint e_addr
   v_eq v_ne v_lt v_le v_gt v_ge v_tree flat_t
   twin_op twin_ops norm firsts_of diag_ok v_first
-  v_index x_from_linear x_to_linear x_next_canonical x_prev_canonical x_intersection x_eq l_call
+  v_broadcasted v_index x_from_linear x_to_linear x_next_canonical x_prev_canonical x_intersection x_eq l_call
   (* C11 *)
   observe_Z observe_ptr obs_map obs_ints
   p_index p_sliced p_apply_op p_exec_op p_dom_op p_addr_brackets p_addr_paren p_addr_cursor p_size p_extension p_rank
